@@ -10,7 +10,7 @@ returns.  That splits into
       - set reader: **false** as written (`setReader_unsound`);
       - bloom-filter readers: `isExist_sound` (RPN evaluation), `bloom_no_false_negative`
         (filter), and the token level: **false** as written for four input classes
-        (`bf_unsound_*`, `ft_unsound_*`), true under the coverage hypothesis
+        (`bf_unsound_*`, `ft_unsound_ngram`), true under the coverage hypothesis
         (`bf_sound_partial`, `ft_sound_partial`);
       - min-max reader: `minMax_sound_of_bounds` / `minMax_asWritten_unsound_documentedLayout`.
 -/
@@ -220,10 +220,13 @@ theorem setReader_prunes_all (mm : Nat) (rgs : List (Nat × Nat)) :
 section rpn
 variable {β : Type}
 
-/-- well-formed condition: AND/OR over `field op literal` (either operand order). -/
+/-- well-formed condition: AND/OR over `field op literal` (either operand order); `atom` = the
+comparisons a filter lookup decides (=, match-phrase), `atomO` = the others (<> < <= > >=). -/
 inductive WFC : SExpr β → Prop
   | atom (n : Nat) (b : β) : WFC (.bin .cmp (.var n) (.lit b))
   | atomSw (n : Nat) (b : β) : WFC (.bin .cmp (.lit b) (.var n))
+  | atomO (n : Nat) (b : β) : WFC (.bin .cmpo (.var n) (.lit b))
+  | atomOSw (n : Nat) (b : β) : WFC (.bin .cmpo (.lit b) (.var n))
   | and {l r : SExpr β} : WFC l → WFC r → WFC (.bin .and l r)
   | or {l r : SExpr β} : WFC l → WFC r → WFC (.bin .or l r)
   | paren {e : SExpr β} : WFC e → WFC (.paren e)
@@ -232,16 +235,20 @@ inductive WFC : SExpr β → Prop
 def elemsOf (inSchema : Nat → Bool) : SExpr β → List (SKElem β)
   | .bin .cmp (.var n) (.lit b) => [if inSchema n then .inRange n b else .alwaysTrue]
   | .bin .cmp (.lit b) (.var n) => [if inSchema n then .inRange n b else .alwaysTrue]
+  | .bin .cmpo (.var _) (.lit _) => [.alwaysTrue]
+  | .bin .cmpo (.lit _) (.var _) => [.alwaysTrue]
   | .bin .and l r => elemsOf inSchema l ++ elemsOf inSchema r ++ [.and]
   | .bin .or l r => elemsOf inSchema l ++ elemsOf inSchema r ++ [.or]
   | .paren e => elemsOf inSchema e
   | _ => []
 
-/-- tree evaluation over the atom answers: an atom on a field outside the reader's schema is
-`true`; every atom is asked (no short circuit); an error anywhere is an error. -/
+/-- tree evaluation over the atom answers: an atom on a field outside the reader's schema, or
+with a comparison no lookup decides, is `true`; every atom is asked (no short circuit); an error anywhere is an error. -/
 def evalE (inSchema : Nat → Bool) (ans : Nat → β → Option Bool) : SExpr β → Option Bool
   | .bin .cmp (.var n) (.lit b) => if inSchema n then ans n b else some true
   | .bin .cmp (.lit b) (.var n) => if inSchema n then ans n b else some true
+  | .bin .cmpo (.var _) (.lit _) => some true
+  | .bin .cmpo (.lit _) (.var _) => some true
   | .bin .and l r =>
     match evalE inSchema ans l, evalE inSchema ans r with
     | some x, some y => some (x && y)
@@ -291,6 +298,14 @@ theorem convElems_wf (inSchema : Nat → Bool) {e : SExpr β} (h : WFC e) :
     cases hs : inSchema n
     · rw [convElems_var_out _ _ _ hs]; simp [convElems]
     · rw [convElems_var_in _ _ _ _ hs]; simp
+  | atomO n b =>
+    intro rest
+    simp only [toRPN, opTok, List.cons_append, List.nil_append, elemsOf]
+    cases hs : inSchema n <;> simp [convElems, hs]
+  | atomOSw n b =>
+    intro rest
+    simp only [toRPN, switchedTok, List.cons_append, List.nil_append, elemsOf]
+    cases hs : inSchema n <;> simp [convElems, hs]
   | @and l r hl hr ihl ihr =>
     intro rest
     rw [toRPN_bin hr.not_var]
@@ -330,6 +345,8 @@ theorem runElems_wf (inSchema : Nat → Bool) (ans : Nat → β → Option Bool)
     cases hs : inSchema n
     · simp [runElems]
     · simp only [if_true, List.cons_append, List.nil_append, runElems_inRange]
+  | atomO n b => intro es st; simp [elemsOf, evalE, runElems]
+  | atomOSw n b => intro es st; simp [elemsOf, evalE, runElems]
   | @and l r hl hr ihl ihr =>
     intro es st
     simp only [elemsOf, evalE, List.append_assoc]
@@ -372,6 +389,8 @@ theorem isExist_eq (inSchema : Nat → Bool) (ans : Nat → β → Option Bool) 
 def satE (holds : Nat → β → Prop) : SExpr β → Prop
   | .bin .cmp (.var n) (.lit b) => holds n b
   | .bin .cmp (.lit b) (.var n) => holds n b
+  | .bin .cmpo (.var n) (.lit b) => holds n b
+  | .bin .cmpo (.lit b) (.var n) => holds n b
   | .bin .and l r => satE holds l ∧ satE holds r
   | .bin .or l r => satE holds l ∨ satE holds r
   | .paren e => satE holds e
@@ -391,6 +410,8 @@ theorem evalE_sound (inSchema : Nat → Bool) (ans : Nat → β → Option Bool)
     cases hi : inSchema n
     · simp
     · simpa using hans n b hi hs
+  | atomO n b => simp [evalE]
+  | atomOSw n b => simp [evalE]
   | @and l r _ _ ihl ihr =>
     have h1 := ihl hs.1
     have h2 := ihr hs.2
@@ -429,6 +450,8 @@ theorem evalE_total (inSchema : Nat → Bool) (ans : Nat → β → Option Bool)
     cases hi : inSchema n
     · simp
     · simpa using hans n b hi
+  | atomO n b => simp [evalE]
+  | atomOSw n b => simp [evalE]
   | @and l r _ _ ihl ihr =>
     simp only [evalE]
     cases hx : evalE inSchema ans l <;> cases hy : evalE inSchema ans r <;> simp_all
@@ -583,6 +606,8 @@ theorem lineHit_sound (wsp : Nat → Bool) (pos : Nat → List Nat) (seg : Seg) 
       exact ⟨by cases ls <;> simp_all, allHit_of_subset pos _ ls hsub⟩
     · simp only [hm]; exact ⟨⟨_, rfl⟩, fun _ => rfl⟩
   | atomSw n b => intro _; simp [lineHit]
+  | atomO n b => intro _; simp [lineHit]
+  | atomOSw n b => intro _; simp [lineHit]
   | @and l r _ _ ihl ihr =>
     intro hc
     rw [atomsOf_and _ _ _ (Or.inl rfl)] at hc
@@ -621,6 +646,8 @@ theorem evalE_const_true {β : Type} (inSchema : Nat → Bool) {e : SExpr β} (h
   induction h with
   | atom n b => simp [evalE]
   | atomSw n b => simp [evalE]
+  | atomO n b => simp [evalE]
+  | atomOSw n b => simp [evalE]
   | and _ _ ihl ihr => simp [evalE, ihl, ihr]
   | or _ _ ihl ihr => simp [evalE, ihl, ihr]
   | paren _ ih => simpa [evalE] using ih
@@ -720,12 +747,22 @@ theorem bf_unsound_asWritten : ¬ bf_sound_full := by
   exact h contentSplit _ _ _ (Or.inl rfl) (WFC.atom 0 _) (List.mem_singleton.mpr rfl) bf_unsound_ngram.1
     bf_unsound_ngram.2
 
-/-- (e) the full-text reader looks up the literal of *every* comparison on an indexed column,
-whatever the operator: for `f0 != 'a'` the block holding the row `b` (which satisfies it) is
-pruned because it does not contain `a`. -/
-theorem ft_unsound_operator :
-    rowSat 1 [some [98], some []] (.bin .cmp (.var 0) (.lit ⟨.neq, [97]⟩)) ∧
-    ftMayBe contentSplit posV3 1 [0, 1] (.bin .cmp (.var 0) (.lit ⟨.neq, [97]⟩)) [[some [98], some []]]
+/-- (e) before fix 2 of this round every comparison on an indexed column became a lookup
+element, whatever its operator, and the full-text reader looked its literal up: for `f0 != 'a'`
+the block holding the row `b` was pruned. `convertToRPNElem` now keeps a lookup element only for
+`=` / match-phrase (`Tok.cmp`); any other comparison (`Tok.cmpo`) is unknown: the block is kept. -/
+theorem ft_operator_unknown :
+    rowSat 1 [some [98], some []] (.bin .cmpo (.var 0) (.lit ⟨.neq, [97]⟩)) ∧
+    ftMayBe contentSplit posV3 1 [0, 1] (.bin .cmpo (.var 0) (.lit ⟨.neq, [97]⟩)) [[some [98], some []]]
+      = some (some true) := by
+  constructor
+  · show atomHolds 1 _ 0 _ = true; decide
+  · decide
+
+/-- the n-gram lookup (a) hits the full-text reader as well. -/
+theorem ft_unsound_ngram :
+    rowSat 1 [some [97, 32, 98, 32, 99], some []] (mpAtom [97, 32, 98, 32, 99]) ∧
+    ftMayBe contentSplit posV3 1 [0, 1] (mpAtom [97, 32, 98, 32, 99]) [[some [97, 32, 98, 32, 99], some []]]
       = some (some false) := by
   constructor
   · show atomHolds 1 _ 0 _ = true; decide
@@ -733,8 +770,8 @@ theorem ft_unsound_operator :
 
 theorem ft_unsound_asWritten : ¬ ft_sound_full := by
   intro h
-  exact h contentSplit 1 _ _ _ (Or.inl rfl) (WFC.atom 0 _) (List.mem_singleton.mpr rfl) ft_unsound_operator.1
-    ft_unsound_operator.2
+  exact h contentSplit 1 _ _ _ (Or.inl rfl) (WFC.atom 0 _) (List.mem_singleton.mpr rfl) ft_unsound_ngram.1
+    ft_unsound_ngram.2
 
 /-- non-vacuity of the partial statements: `hello world` / match-phrase `world`. -/
 example : LineCovered contentSplit (mpAtom [119, 111, 114, 108, 100]) [[some [104, 101, 108, 108, 111, 32, 119, 111, 114, 108, 100]]] := by
